@@ -678,7 +678,7 @@ def run_case(contract, values, log=None, source=None):
         memo = {}
         for n, v in values.items():
             olds[f'old_{n}'] = snapshot(v, memo)
-        target = real_callable(contract.target)
+        target = contract.native_target(values) if getattr(contract, 'native_target', None) else real_callable(contract.target)
         install_callee_contracts(contract, patches, log, source)
         if getattr(contract, 'native_setup', None):
             try:
@@ -689,6 +689,10 @@ def run_case(contract, values, log=None, source=None):
         names = contract.call if contract.call is not None else list(contract.inputs.keys())
         args = [values[n] for n in names]
         kwargs = {p: values[n] for p, n in contract.kwargs.items()}
+        if getattr(contract, 'star', None):
+            args += list(values[contract.star])
+        if getattr(contract, 'starstar', None):
+            kwargs.update(values[contract.starstar])
         avail = dict(values)
         avail.update(olds)
         try:
